@@ -30,6 +30,14 @@ pub struct Desc {
     /// after the normal phase of the preference-less session the last sharded node "restarts" three times with other
     /// sharding parameters (msb_ignore changed, shard count changed, not sharded) and the cell keys are re-run
     pub restart: bool,
+    /// after the normal phase the last node is killed (listener stopped, connections reset); once the client reports it
+    /// not connected every request is re-run: the first attempt must go to a replica that is still up
+    pub down: bool,
+    /// after the normal phase the last node is reported in another datacenter, the session refreshes its metadata
+    /// (the driver re-creates the node object and its pool) and every request is re-run against the new placement
+    pub moved: bool,
+    /// pool size: PerShard(pool_n) / PerHost(pool_n)
+    pub pool_n: usize,
 }
 
 impl Desc {
@@ -47,6 +55,9 @@ impl Desc {
             "repeats": self.repeats,
             "nat": self.nat,
             "restart": self.restart,
+            "down": self.down,
+            "moved": self.moved,
+            "pool_n": self.pool_n,
         })
     }
     pub fn from_json(v: &Value) -> Option<Desc> {
@@ -60,17 +71,23 @@ impl Desc {
             repeats: v["repeats"].as_u64().unwrap_or(1) as usize,
             nat: v["nat"].as_bool().unwrap_or(false),
             restart: v["restart"].as_bool().unwrap_or(false),
+            down: v["down"].as_bool().unwrap_or(false),
+            moved: v["moved"].as_bool().unwrap_or(false),
+            pool_n: v["pool_n"].as_u64().unwrap_or(1) as usize,
         })
     }
     pub fn label(&self) -> String {
         let sh: Vec<String> = self.shards.iter().map(|s| s.map(|(n, m)| format!("{n}/{m}")).unwrap_or_else(|| "U".into())).collect();
-        format!("dcs={:?} shards=[{}] vn={} pool={} tablets={}{}", self.dc_sizes, sh.join(","), self.vnodes, if self.per_shard { "per-shard" } else { "per-host" }, self.tablets, if self.nat { " nat" } else if self.restart { " +restarts" } else { "" })
+        format!("dcs={:?} shards=[{}] vn={} pool={}({}) tablets={}{}", self.dc_sizes, sh.join(","), self.vnodes, if self.per_shard { "per-shard" } else { "per-host" }, self.pool_n, self.tablets, if self.nat { " nat" } else if self.restart { " +restarts" } else if self.down { " +down" } else if self.moved { " +moved" } else { "" })
     }
     fn seed(&self) -> u64 {
         let mut j = self.to_json();
         j.as_object_mut().unwrap().remove("repeats");
         j.as_object_mut().unwrap().remove("keys_per_cell");
         j.as_object_mut().unwrap().remove("restart");
+        j.as_object_mut().unwrap().remove("down");
+        j.as_object_mut().unwrap().remove("moved");
+        j.as_object_mut().unwrap().remove("pool_n");
         vcore::fnv64(j.to_string().as_bytes())
     }
 }
@@ -147,8 +164,10 @@ pub fn build_layout(desc: &Desc) -> Layout {
         KsCfg { name: "s2".into(), strat: Strat::Simple(2), tablet_based: false },
         KsCfg { name: "s3".into(), strat: Strat::Simple(3), tablet_based: false },
         KsCfg { name: "n11".into(), strat: Strat::Nts(vec![("dc1".into(), 1), ("dc2".into(), 1)]), tablet_based: false },
-        KsCfg { name: "n21".into(), strat: Strat::Nts(vec![("dc1".into(), 2), ("dc2".into(), 1)]), tablet_based: false },
+        KsCfg { name: "n21".into(), strat: Strat::Nts(vec![("dc1".into(), 2), ("dc2".into(), 1), ("dc3".into(), 1)]), tablet_based: false },
         KsCfg { name: "n02".into(), strat: Strat::Nts(vec![("dc2".into(), 2)]), tablet_based: false },
+        // an entry with replication factor 0 is legal CQL: no replicas in dc1
+        KsCfg { name: "n01".into(), strat: Strat::Nts(vec![("dc1".into(), 0), ("dc2".into(), 1)]), tablet_based: false },
     ];
     let mut tablet_maps = Vec::new();
     if desc.tablets > 0 {
@@ -385,7 +404,10 @@ pub fn policies(layout: &Layout) -> Vec<Policy> {
         v.push(Policy::PreferDc { dc: dc.clone(), failover: false });
     }
     v.push(Policy::PreferRack { dc: "dc1".into(), rack: "r2".into(), failover: true });
-    v.push(Policy::PreferRack { dc: "dc1".into(), rack: "r2".into(), failover: false });
+    if layout.desc.keys_per_cell > 1 {
+        // thorough only
+        v.push(Policy::PreferRack { dc: "dc1".into(), rack: "r2".into(), failover: false });
+    }
     v
 }
 
@@ -404,9 +426,14 @@ pub enum Allowed {
     Pairs { pairs: Vec<(usize, i32)>, narrowed_to_dc: bool },
 }
 
-fn narrow<T: Clone>(all: Vec<T>, node_of: impl Fn(&T) -> usize, layout: &Layout, policy: &Policy) -> (Vec<T>, bool, Option<&'static str>) {
+fn narrow<T: Clone>(all: Vec<T>, node_of: impl Fn(&T) -> usize, layout: &Layout, policy: &Policy, down: &BTreeSet<usize>) -> (Vec<T>, bool, Option<&'static str>) {
     if all.is_empty() {
         return (all, false, Some("no replica at all"));
+    }
+    // "reachable": the nodes that are up
+    let all: Vec<T> = all.into_iter().filter(|x| !down.contains(&node_of(x))).collect();
+    if all.is_empty() {
+        return (all, false, Some("every replica is down"));
     }
     match policy {
         Policy::Default => (all, false, None),
@@ -418,16 +445,16 @@ fn narrow<T: Clone>(all: Vec<T>, node_of: impl Fn(&T) -> usize, layout: &Layout,
             } else if *failover {
                 (all, false, None)
             } else {
-                (Vec::new(), false, Some("no replica in the preferred datacenter and failover is not permitted"))
+                (Vec::new(), false, Some("no reachable replica in the preferred datacenter and failover is not permitted"))
             }
         }
     }
 }
 
-/// Reference answer for a vnode keyspace (every node is up and connected).
-pub fn allowed_vnode(layout: &Layout, strat: &Strat, policy: &Policy, token: i64) -> Allowed {
+/// Reference answer for a vnode keyspace; `down` = nodes that are not reachable.
+pub fn allowed_vnode(layout: &Layout, strat: &Strat, policy: &Policy, token: i64, down: &BTreeSet<usize>) -> Allowed {
     let all = layout.ring.replicas_ring_order(token, strat);
-    let (nodes, narrowed_to_dc, why) = narrow(all, |x| *x, layout, policy);
+    let (nodes, narrowed_to_dc, why) = narrow(all, |x| *x, layout, policy, down);
     match why {
         Some(why) => Allowed::Unconstrained { why },
         None => Allowed::Nodes { nodes, narrowed_to_dc },
@@ -435,10 +462,10 @@ pub fn allowed_vnode(layout: &Layout, strat: &Strat, policy: &Policy, token: i64
 }
 
 /// Reference answer for the tablet table once the tablet of `generation` covering the token is known.
-pub fn allowed_tablet(layout: &Layout, generation: usize, policy: &Policy, token: i64) -> Allowed {
+pub fn allowed_tablet(layout: &Layout, generation: usize, policy: &Policy, token: i64, down: &BTreeSet<usize>) -> Allowed {
     let Some(t) = layout.tablet_of(generation, token) else { return Allowed::Unconstrained { why: "no tablet covers the token" } };
     let all = layout.tablet_maps[generation][t].replicas.clone();
-    let (pairs, narrowed_to_dc, why) = narrow(all, |x| x.0, layout, policy);
+    let (pairs, narrowed_to_dc, why) = narrow(all, |x| x.0, layout, policy, down);
     match why {
         Some(why) => Allowed::Unconstrained { why },
         None => Allowed::Pairs { pairs, narrowed_to_dc },
@@ -455,6 +482,14 @@ pub fn enumerate(thorough: bool) -> Vec<Desc> {
             dc_layouts.push(vec![a, n - a]);
         }
     }
+    // three datacenters
+    dc_layouts.push(vec![1, 1, 1]);
+    dc_layouts.push(vec![2, 1, 1]);
+    if thorough {
+        dc_layouts.push(vec![2, 2, 1]);
+        dc_layouts.push(vec![2, 2, 2]);
+        dc_layouts.push(vec![3, 2, 1]);
+    }
     // shard patterns, cycled over the nodes; the mixed ones give every node another sharder
     let u = None;
     let s = |n: u16, m: u8| Some((n, m));
@@ -465,6 +500,8 @@ pub fn enumerate(thorough: bool) -> Vec<Desc> {
         vec![s(3, 12)],
         vec![s(3, 12), s(2, 12), u, s(1, 12)],
         vec![s(2, 12), s(3, 0), s(3, 12), s(1, 12)],
+        // the contact point / control-connection host is not sharded, the others are
+        vec![u, s(3, 12), s(2, 12)],
     ];
     if thorough {
         patterns.push(vec![s(8, 12)]);
@@ -472,10 +509,16 @@ pub fn enumerate(thorough: bool) -> Vec<Desc> {
         patterns.push(vec![u, s(8, 12), s(8, 3)]);
     }
     let mut out = Vec::new();
-    let (keys_per_cell, repeats) = if thorough { (2, 2) } else { (1, 2) };
+    // quick: one pass per request - every cell is still drawn once per policy and statement kind (>= 20 random replica
+    // picks per cell and keyspace); the down phase doubles the plain statements itself
+    let (keys_per_cell, repeats) = if thorough { (2, 1) } else { (1, 1) };
     for dcs in &dc_layouts {
         let n: usize = dcs.iter().sum();
-        for pat in &patterns {
+        for (pi, pat) in patterns.iter().enumerate() {
+            // three datacenters: unsharded and the per-node mixes (index 8 = the thorough 8-shard mix)
+            if dcs.len() >= 3 && ![0usize, 4, 5, 8].contains(&pi) {
+                continue;
+            }
             let shards: Vec<Option<(u16, u8)>> = (0..n).map(|i| pat[i % pat.len()]).collect();
             for per_shard in [true, false] {
                 for tablets in [0usize, if thorough { 5 } else { 3 }] {
@@ -483,7 +526,13 @@ pub fn enumerate(thorough: bool) -> Vec<Desc> {
                         continue; // tablets exist on ScyllaDB nodes only
                     }
                     for vnodes in if thorough { vec![1usize, 2, 3, 4] } else { vec![1usize, 2, 3] } {
-                        out.push(Desc { dc_sizes: dcs.clone(), shards: shards.clone(), vnodes, per_shard, tablets, keys_per_cell, repeats, nat: false, restart: vnodes == 2 && shards.iter().any(|x| x.is_some()) });
+                        if !per_shard && vnodes != 2 && !(thorough && vnodes == 4) {
+                            continue; // one-connection-per-host pools with 2 vnodes only (thorough: 2 and 4)
+                        }
+                        if thorough && vnodes == 4 && n > 4 {
+                            continue;
+                        }
+                        out.push(Desc { dc_sizes: dcs.clone(), shards: shards.clone(), vnodes, per_shard, tablets, keys_per_cell, repeats, nat: false, restart: vnodes == 2 && shards.iter().any(|x| x.is_some()), down: vnodes == 1 && n >= 2, moved: vnodes == 3 && n >= 2, pool_n: 1 });
                     }
                 }
             }
@@ -494,7 +543,20 @@ pub fn enumerate(thorough: bool) -> Vec<Desc> {
         let n: usize = dcs.iter().sum();
         for nr in if thorough { vec![3u16, 8] } else { vec![3u16] } {
             for tablets in [0usize, 3] {
-                out.push(Desc { dc_sizes: dcs.clone(), shards: vec![Some((nr, 12)); n], vnodes: 2, per_shard: true, tablets, keys_per_cell, repeats, nat: true, restart: false });
+                out.push(Desc { dc_sizes: dcs.clone(), shards: vec![Some((nr, 12)); n], vnodes: 2, per_shard: true, tablets, keys_per_cell, repeats, nat: true, restart: false, down: false, moved: false, pool_n: 1 });
+            }
+        }
+    }
+    // pool sizes above one: PerShard(2) and PerHost(3)
+    let big_pool_layouts: Vec<Vec<usize>> = if thorough { vec![vec![1], vec![2], vec![2, 1], vec![2, 2], vec![3, 2, 1]] } else { vec![vec![1], vec![2, 1]] };
+    for dcs in big_pool_layouts {
+        let n: usize = dcs.iter().sum();
+        for pat in [&patterns[3], &patterns[5]] {
+            let shards: Vec<Option<(u16, u8)>> = (0..n).map(|i| pat[i % pat.len()]).collect();
+            for (per_shard, pool_n) in [(true, 2usize), (false, 3)] {
+                for tablets in if thorough { vec![0usize, 3] } else { vec![0usize] } {
+                    out.push(Desc { dc_sizes: dcs.clone(), shards: shards.clone(), vnodes: 2, per_shard, tablets, keys_per_cell, repeats, nat: false, restart: per_shard, down: false, moved: false, pool_n });
+                }
             }
         }
     }
